@@ -225,11 +225,17 @@ def _load(t):
     return ast.copy_location(t2, t)
 
 
+def _is_exit_call(s):
+    """sys.exit(...) as a statement leaves like a raise (it raises SystemExit)."""
+    return isinstance(s, ast.Expr) and isinstance(s.value, ast.Call) and isinstance(s.value.func, (ast.Attribute, ast.Name)) \
+        and ast.unparse(s.value.func) in ('sys.exit', 'os._exit')
+
+
 def _ways(stmts, in_loop=False):
     """(set of ways the block can be left early, may fall through) - syntactic."""
     ks = set()
     for s in stmts:
-        if isinstance(s, ast.Raise):
+        if isinstance(s, ast.Raise) or _is_exit_call(s):
             return ks | {'raise'}, False
         if isinstance(s, ast.Return):
             return ks | {'return'}, False
@@ -603,6 +609,10 @@ class FuncAnalysis:
             self._n_new = new0
         t = self.ev(v, stmt=True)
         n, self._pending_path_guards = self._pending_path_guards, 0
+        if _is_exit_call(s):
+            for _ in range(n):
+                self._guards.pop()
+            return 'raise'
         return None, n
 
     def _s_Pass(self, s):
@@ -1080,6 +1090,7 @@ class FuncAnalysis:
                 lv = last(li.iter, new_env[name])
                 if lv is not None:
                     new_env[name] = lv
+        self._accumulate_to_comp(li, s, ev_start, new_env)
         self.env = new_env
         if s.orelse:
             li.has_else = True
@@ -1097,6 +1108,7 @@ class FuncAnalysis:
                     return st
             return None
         it = self.ev(s.iter)
+        raw_it = it
         if isinstance(s.iter, ast.Name) and it[0] in ('list', 'tuple') and 1 <= len(it[1]) <= 8 and self._unrollable_body(s) \
                 and all(e[0] == 'c' or (e[0] == 'tuple' and e[1] and all(x[0] == 'c' for x in e[1])) for e in it[1]):
             # ... also when the literal list has a name (and is never changed: it is still a literal here)
@@ -1115,6 +1127,7 @@ class FuncAnalysis:
             indexed = it[2][0][2][0]
             it = T.call(T.G('enumerate'), (indexed,))
         li = self._new_loop(s, 'for', it)
+        li.raw_iter = raw_it
         self._emit('loop', s, loop=li.id, iter=it)
 
         def bind():
@@ -1129,6 +1142,64 @@ class FuncAnalysis:
         return None
 
     _s_AsyncFor = _s_For
+
+    _EFFECT_KINDS = ('raise', 'return', 'yield', 'yield_from', 'store_sub', 'store_attr', 'aug_sub', 'aug_attr', 'del', 'delattr',
+                     'store_global', 'store_nonlocal', 'break', 'continue', 'with', 'aug')
+
+    def _accumulate_to_comp(self, li, s, ev_start, new_env):
+        """xs = []; for t in IT: xs.append(E(t))   is   xs = [E(t) for t in IT]   (also with `if c(t):` around
+        the append): when the loop does nothing else, the list is given the value of the comprehension."""
+        if li.kind != 'for' or li.has_break or li.has_continue or getattr(s, 'orelse', None) or getattr(li, 'raw_iter', None) != li.iter:
+            return
+        body = self.events[ev_start:]
+        eff = [e for e in body if (e.kind in self._EFFECT_KINDS and not e.d.get('in_comp') and not e.d.get('in_lambda'))
+               or (e.kind == 'call' and e.stmt and not e.d.get('in_comp'))]
+        if len(eff) != 1:
+            return
+        e = eff[0]
+        if not (e.kind == 'call' and e.f[0] == 'attr' and e.f[2] == 'append' and len(e.args) == 1 and not e.kws):
+            return
+        X = e.f[1]
+        if not (X[0] == 'call' and X[1] == T.G('$new_list')) or e.loops != tuple(self._loops) + (li.id,):
+            return
+        base = len(li.guards)
+        if any(not k.startswith('if') for k in e.graw[base:]):
+            return
+        conds = [(c if p else T.not_(c)) for c, p in e.guards[base:]]
+        temps, mapping = [], {}
+
+        def pat(t, path):
+            if isinstance(t, ast.Name):
+                self._n_unk += 1
+                bv = ('bv', f't{self._n_unk}', 0)
+                temps.append(bv)
+                mapping[mk_elem(li.iter, li.id, path)] = bv
+                return bv
+            if isinstance(t, (ast.Tuple, ast.List)) and not any(isinstance(x, ast.Starred) for x in t.elts):
+                return T.tup([pat(x, path + (i,)) for i, x in enumerate(t.elts)])
+            raise ValueError
+        try:
+            p = pat(s.target, ())
+        except ValueError:
+            return
+        elt = T.subst(e.args[0], mapping)
+        conds = tuple(T.subst(c, mapping) for c in conds)
+        for t in (elt,) + conds:
+            for x in T.walk(t):
+                if isinstance(x, tuple) and x and ((x[0] in ('phi', 'idx') and li.id in x) or (x[0] == 'elem' and x[2] == li.id)):
+                    return          # not a pure map of the element
+        gens = (('gen', p, li.iter, conds),)
+        h = self._height(list(gens) + [elt]) + 1
+        ren = {tv: ('bv', f'c{i}', h) for i, tv in enumerate(temps)}
+        comp = ('comp', 'list', T.subst(elt, ren), tuple(T.subst(g, ren) for g in gens))
+        hit = False
+        for k, v in list(new_env.items()):
+            if isinstance(v, tuple) and (v == X or (v[0] == 'mut' and v[1] == X)):
+                new_env[k] = comp
+                hit = True
+        if hit:
+            e.d['in_comp'] = True
+            self._ver.pop(X, None)
 
     @staticmethod
     def _unrollable(s):
